@@ -227,6 +227,8 @@ CHECKS = {
             {'type': 'custom', 'name': 'lock-order', 'fn': lock_static, 'want': 'order'},
             {'type': 'custom', 'name': 'race', 'fn': race_job, 'tests': ['TestConcurrent', 'TestConcStorm', 'TestSub', 'TestRaw'], 'n': {'quick': 8, 'thorough': 60}},
             C('sub', 'TestSub', 'TraceSub', n={'quick': 40, 'thorough': 600}),
+            C('req', 'TestReq', 'TraceReq', n={'quick': 120, 'thorough': 1000}),
+            C('respondent', 'TestRespondent', 'TraceRespondent', n={'quick': 60, 'thorough': 600}),
             C('rawstorm', 'TestRawStorm', 'TraceBurst', trivial_len=0, n={'quick': 5000, 'thorough': 60000}),
         ],
         'rule': 'race: the concurrent hammer (10 patterns x inproc and, shared among them, tcp / tls+tcp / ipc / ws; 2 senders, 2 receivers, option, context and '
@@ -242,6 +244,7 @@ CHECKS = {
             T('MC_Core', 'Core_C14_sync.cfg'),
             C('errors', 'TestErrorsReal', 'TraceErrors', trivial_len=3),
             C('core', 'TestCore', 'TraceCore', n={'quick': 60, 'thorough': 800}),
+            C('req', 'TestReq', 'TraceReq', n={'quick': 120, 'thorough': 1000}),
         ],
         'rule': 'static: one case per function with lock activity (every CFG path explored by TLC); dynamic: one trace per error scenario '
                 '(TLS configuration, address in use, refused dial, handshake loss) with a follow-up call after every outcome, plus the core scenarios '
@@ -457,6 +460,7 @@ CHECKS = {
             T('MC_Lifecycle', 'Lifecycle.cfg', workers=2),
             C('core', 'TestCore', 'TraceCore', n={'quick': 40, 'thorough': 600}, env={'VERIF_MIX': 'close'}),
             C('req', 'TestReq', 'TraceReq', n={'quick': 40, 'thorough': 600}, env={'VERIF_MIX': 'close'}),
+            C('reqplain', 'TestReq', 'TraceReq', n={'quick': 120, 'thorough': 1000}, file='req'),
             C('rep', 'TestRep', 'TraceRep', n={'quick': 30, 'thorough': 400}, env={'VERIF_MIX': 'close'}),
             C('respondent', 'TestRespondent', 'TraceRespondent', n={'quick': 30, 'thorough': 400}, env={'VERIF_MIX': 'close'}),
             C('sub', 'TestSub', 'TraceSub', n={'quick': 30, 'thorough': 400}, env={'VERIF_MIX': 'close'}),
@@ -481,6 +485,8 @@ CHECKS = {
             T('MC_Core', 'Core_C13.cfg'),
             T('MC_Core', 'Core_C13_full.cfg', tiers=('thorough',)),
             C('core', 'TestCore', 'TraceCore', n={'quick': 120, 'thorough': 1500}),
+            C('errors', 'TestErrorsReal', 'TraceErrors', trivial_len=3),
+            C('opts', 'TestOptions', 'TraceOptions', trivial_len=3, vtimeout=3000, env={'VERIF_OPTS_ONLY': 'ep-ipc'}),
         ],
         'assumptions': ASSUME_COMMON,
     },
